@@ -15,6 +15,13 @@
 // storm.go), convoy (real scheduler: calls piled up in front of the Manager's
 // lock, among them several concurrent calls of the same done func, convoy.go)
 // and stress (real scheduler, acquire/hold/release churn, stress_test.go).
+//
+// The spelling of the addresses is data of every part (names.go: mixed case,
+// ports, brackets, schemes, white space, non-ASCII, long, empty). Further parts:
+// spell (stepwise; spellings that differ only in case, under oracles that hold
+// whether or not they are one address, spell.go), retry (real scheduler;
+// requesters that ask again the moment they are told of a failure) and parked
+// (dial errors whose Error() method parks while requests are made), retry.go.
 package connprop
 
 import (
